@@ -4269,11 +4269,14 @@ ZSTD_compressBlock_splitBlock_internal(ZSTD_CCtx* zc,
     for (i = 0; i <= numSplits; ++i)
     ZSTD_VERIF_LOOP(
         __CPROVER_assigns(i, ip, op, dstCapacity, cSize, srcBytesTotal, dRep, cRep,
-                          __CPROVER_object_whole(zc), __CPROVER_object_whole(dst),
+                          zc->blockSplitCtx.currSeqStore, zc->blockSplitCtx.nextSeqStore,
+                          zc->blockState.prevCBlock, zc->blockState.nextCBlock,
+                          __CPROVER_object_whole(dst),
                           __CPROVER_object_whole(zc->blockState.prevCBlock), __CPROVER_object_whole(zc->blockState.nextCBlock))
         __CPROVER_loop_invariant(i <= numSplits + 1
                               && cSize + dstCapacity == __CPROVER_loop_entry(dstCapacity)
-                              && op == __CPROVER_loop_entry(op) + cSize)
+                              && op == __CPROVER_loop_entry(op) + cSize
+                              && ZSTD_VERIF_BLOCKSTATE_SWAPPED(zc, __CPROVER_loop_entry(zc->blockState.prevCBlock), __CPROVER_loop_entry(zc->blockState.nextCBlock)))
         __CPROVER_decreases(numSplits + 1 - i))
     {
         size_t cSizeChunk;
